@@ -766,6 +766,11 @@ class ParallelProcess(Process):
                 'Trying to retrieve command result, but no command is '
                 'pending.')
         self._pending_command = None
+        if self._ended:
+            # The result was collected when the process was ended.
+            result = self._command_result
+            self._command_result = None
+            return result
         return self.parent.recv()
 
     def initial_state(self, config: Optional[dict] = None) -> State:
@@ -837,6 +842,13 @@ class ParallelProcess(Process):
         # Only end once.
         if self._ended:
             return
+        in_flight = self._pending_command
+        if in_flight:
+            # A command is still in flight, e.g. because the process is
+            # being deleted before its update was applied. Collect the
+            # result so that the child is ready for the end command, and
+            # keep it for whoever still asks for it.
+            self._command_result = self.get_command_result()
         self.send_command('end')
         if self.profile:
             stats = pstats.Stats()
@@ -846,6 +858,7 @@ class ParallelProcess(Process):
         self.multiprocess.join()
         self.multiprocess.close()
         self._ended = True
+        self._pending_command = in_flight
 
     def __del__(self) -> None:
         self.end()
